@@ -5,6 +5,7 @@ implementation did:  unpack(pack(v) ++ rest) = v,  size = len(pack(v)),  exactly
 bytes consumed -- including the consumer protocol of RegulatorDataStructure (bit runs, `.size`
 driven offsets) through a real EcoMAX device."""
 import asyncio
+import collections
 import json
 import math
 import random
@@ -630,11 +631,143 @@ def run_cases(cases, res):
                 res.sample(dict(cls="RegulatorData", fields=c["fields"], message=im["message"].hex(), model=ma), limit=10)
 
 
+# ---------------------------------------------------------------------------------------------
+# complete sweeps of the finite wire types: every byte pattern AND every representable value of the 8- and 16-bit integer
+# classes, every (byte, index) of a bit field -- each with fixed trailing-byte / offset variants.  Judged against the wire layout
+# (little endian, two's complement; bit `index` of the byte) and compared with the model, one driver batch for everything.
+
+SWEEP_AFFIXES = [(b"", b""), (b"", b"\x00"), (b"", b"\xff"), (b"\x5a", b"\xa5\x00\xff"), (b"\x00\xff", b"\x80")]
+
+
+def sweep_affixes(x, size):
+    """8-bit: every variant; 16-bit: no affix, and one of the others in rotation"""
+    if size == 1:
+        return SWEEP_AFFIXES
+    return [SWEEP_AFFIXES[0], SWEEP_AFFIXES[1 + x % (len(SWEEP_AFFIXES) - 1)]]
+
+
+def sweep_jobs(stride=1):
+    """(mode, cls, x, prefix, rest); stride > 1 thins the 16-bit sweeps only (never used by the tiers: both enumerate completely)"""
+    for cls, (ty, size, signed) in INTS.items():
+        if size > 2:
+            continue
+        lo, hi = int_range(size, signed)
+        step = stride if size == 2 else 1
+        for n in range(0, 256 ** size, step):
+            for prefix, rest in sweep_affixes(n, size):
+                yield ("pattern", cls, n, prefix, rest)
+        for v in range(lo, hi + 1, step):
+            for prefix, rest in sweep_affixes(v - lo, size):
+                yield ("value", cls, v, prefix, rest)
+    for b in range(256):
+        for idx in range(8):
+            for k, (prefix, rest) in enumerate(SWEEP_AFFIXES + [(b"", bytes([b ^ 0xFF]))]):
+                yield ("bit" if (b + idx + k) % 2 else "bit-positioned-first", "BitArray", (b, idx), prefix, rest)
+
+
+def sweep_one(job):
+    """run one job on the implementation: (clause violated or None, observed, expected, model request, expected model answer)"""
+    mode, cls, x, prefix, rest = job
+    try:
+        if mode == "pattern":
+            ty, size, signed = INTS[cls]
+            T = getattr(dt, cls)
+            buf = x.to_bytes(size, "little")
+            want = int.from_bytes(buf, "little", signed=signed)
+            o = T.from_bytes(prefix + buf + rest, len(prefix))
+            val, sz = o.value, o.size
+            back = bytes(o.to_bytes())
+            obs = [val, sz, back.hex()]
+            exp = [want, size, buf.hex()]
+            clause = None
+            if type(val) is not int or val != want:
+                clause = "unpacking the packed form of a representable value (followed by arbitrary bytes) returns another value"
+            elif sz != size:
+                clause = "unpacking from a longer buffer consumes a different number of bytes than the packed form occupies"
+            elif back != buf:
+                clause = "packing the unpacked value does not give back the buffer it was unpacked from"
+            return clause, obs, exp, f"t.int {ty} unpack {hexs(buf + rest)}", f"{want} {size}"
+        if mode == "value":
+            ty, size, signed = INTS[cls]
+            T = getattr(dt, cls)
+            o = T(x)
+            p = bytes(o.to_bytes())
+            sz = o.size
+            wantp = x.to_bytes(size, "little", signed=signed)
+            o2 = T.from_bytes(prefix + p + rest, len(prefix))
+            obs = [p.hex(), sz, o2.value, o2.size]
+            exp = [wantp.hex(), size, x, size]
+            clause = None
+            if sz != len(p):
+                clause = "reported size differs from the number of packed bytes"
+            elif type(o2.value) is not int or o2.value != x:
+                clause = "unpacking the packed form returns a different value"
+            elif o2.size != len(p):
+                clause = "unpacking from a longer buffer consumes a different number of bytes"
+            elif p != wantp:
+                clause = "the packed form is not the little-endian two's-complement form of the value"
+            return clause, obs, exp, f"t.int {ty} pack {x}", f"{hexs(wantp)} {size}"
+        b, idx = x
+        buf = prefix + bytes([b]) + rest
+        if mode == "bit":
+            o = dt.BitArray.from_bytes(buf, len(prefix))
+            nxt = o.next(idx)
+            obs = [int(bool(o.value)), int(o.size), int(nxt), bytes(o.to_bytes()).hex()]
+        else:      # the regulator-data order: positioned first (by the constructor), loaded afterwards, read BEFORE any next()
+            o = dt.BitArray(index=idx)
+            o.unpack(buf[len(prefix):])
+            obs = [int(bool(o.value)), int(o.size), None, bytes(o.to_bytes()).hex()]
+            obs[2] = int(o.next(idx))
+        exp = [(b >> idx) & 1, 1 if idx == 7 else 0, (idx + 1) % 8, bytes([b]).hex()]
+        clause = None if obs == exp and type(o.value) is bool else \
+            "bit field: value is bit `index` of the shared byte, released (size 1) after bit 7, packs to the shared byte"
+        return clause, obs, exp, f"t.bit {idx} {hexs(bytes([b]) + rest)}", " ".join(map(str, exp))
+    except Exception as e:  # noqa: BLE001 -- every job is a representable value / a long enough buffer: nothing may raise
+        return "a representable value / a sufficient buffer raised", type(e).__name__, None, None, None
+
+
+def sweep_input(job):
+    mode, cls, x, prefix, rest = job
+    return dict(kind="sweep", mode=mode, cls=cls, x=list(x) if isinstance(x, tuple) else x, prefix=prefix.hex(), rest=rest.hex())
+
+
+def run_sweep(res, jobs=None, complete=True):
+    reqs, wants, jl = [], [], []
+    n = collections.Counter()
+    for job in (sweep_jobs() if jobs is None else jobs):
+        clause, obs, exp, req, want = sweep_one(job)
+        n[f"sweep:{job[1]}:{'bit' if job[0].startswith('bit') else job[0]}"] += 1
+        if clause:
+            res.fail("spec", sweep_input(job), exp, obs, clause)
+        if req is not None:
+            reqs.append(req)
+            wants.append(want)
+            jl.append(job)
+    answers = driver_batch(reqs)
+    for job, req, want, ans in zip(jl, reqs, wants, answers):
+        if ans != want:
+            res.fail("corr", sweep_input(job), dict(wire_layout=want), dict(model=ans, request=req),
+                     "model differs from the wire layout on a swept value / buffer")
+    for k, v in n.items():
+        res.count(k, v)
+    total = sum(n.values())
+    res.evaluations += total
+    res.nontrivial.add(("sweep", total))
+    if jobs is None and complete:
+        res.extra["sweep_enumerated_completely"] = dict(
+            byte_patterns={cls: 256 ** INTS[cls][1] for cls in INTS if INTS[cls][1] <= 2},
+            representable_values={cls: 256 ** INTS[cls][1] for cls in INTS if INTS[cls][1] <= 2},
+            bit_fields="256 bytes x 8 indexes x 6 trailing / offset variants, unpack-then-position and position-then-unpack",
+            affixes="8-bit: all 5 (prefix, trailing) variants; 16-bit: none + one of 4 in rotation", calls=total)
+
+
 RULE = ("per wire type: boundary values of every integer type (min, max, +-1, powers of two +-1, byte patterns, just outside the range), "
         "random interior; float/double bit patterns (zeros, subnormals, infinities, NaNs, random); IPv4/IPv6 byte tuples; "
         "Unicode strings over 1/2/3/4-byte alphabets and arbitrary scalar values; length-prefixed values around the 255-byte limit; "
         "each read at a random offset and followed by random trailing bytes; arbitrary (also too short / invalid UTF-8) buffers; "
-        "all 256 bytes x 8 indexes of a bit field; random field sequences (bit runs crossing byte boundaries, strings, numbers) "
+        "all 256 bytes x 8 indexes of a bit field; COMPLETE sweeps: all 256 / 65536 byte patterns and all representable values of SignedChar, "
+        "UnsignedChar, Short, UnsignedShort (from_bytes value / size / re-pack against the wire layout and the model, with trailing bytes and offsets), "
+        "all 256 x 8 bit fields x 6 affix variants in both orders (unpack-then-position, position-then-unpack); random field sequences (bit runs crossing byte boundaries, strings, numbers) "
         "decoded by a real EcoMAX device. distinct = distinct (type, value, offset, trailing bytes); "
         "non-trivial = representable and not the zero/empty value")
 
@@ -655,6 +788,8 @@ def run(ctx):
     import pycode_types  # translator validation: generated class methods vs the real methods (harness/pycode_types.py)
     parts.run("translated classes vs the real methods", pycode_types.check, res, random.Random(ctx["seed"] * 7919 + 78), ctx["tier"], ["types"])
     parts.run("wire types: pack / unpack / size / field sequences", run_cases, cases, res)
+    if not ctx.get("max_cases"):
+        parts.run("complete sweeps (8/16-bit integers, bit fields)", run_sweep, res)
     parts.run("instance re-use", reuse.datatype_reuse, res, random.Random(ctx["seed"] * 31 + 1919), 1500 if ctx["tier"] == "quick" else 60000)
     parts.run("operation sequences", reuse.datatype_sequences, res, random.Random(ctx["seed"] * 37 + 1920), 1500 if ctx["tier"] == "quick" else 40000)
     parts.finish()
@@ -673,6 +808,12 @@ def replay(ctx):
         for sd in range(100):
             reuse.datatype_reuse(res, random.Random(sd), 100)
             reuse.datatype_sequences(res, random.Random(sd), 100)
+        return res
+    if f["input"].get("kind") == "sweep":
+        i = f["input"]
+        x = tuple(i["x"]) if isinstance(i["x"], list) else i["x"]
+        run_sweep(res, jobs=[(i["mode"], i["cls"], x, bytes.fromhex(i["prefix"]), bytes.fromhex(i["rest"]))])
+        res.sample(i)
         return res
     run_cases([f["input"]], res)
     res.sample(f["input"])
